@@ -2,14 +2,26 @@
 From Coq Require Import List NArith Lia Bool Arith.
 Import ListNotations.
 
-Definition name := N.
-Definition mem (x : name) (l : list name) : bool := existsb (N.eqb x) l.
+(* struct names: any type with a decidable equality (N in the abstract statement, byte strings in front/Valid.v) *)
+Section Names.
+Variable name : Type.
+Variable eqb : name -> name -> bool.
+Hypothesis eqb_spec : forall a b, reflect (a = b) (eqb a b).
+Lemma eqb_refl a : eqb a a = true.
+Proof. destruct (eqb_spec a a); [reflexivity|congruence]. Qed.
+Lemma name_eq_dec (a b : name) : {a = b} + {a <> b}.
+Proof. destruct (eqb_spec a b); [left|right]; assumption. Qed.
+Definition mem (x : name) (l : list name) : bool := existsb (eqb x) l.
 Lemma mem_In x l : mem x l = true <-> In x l.
-Proof. unfold mem. rewrite existsb_exists. split; [intros (y & H & E); apply N.eqb_eq in E; now subst|intros H; exists x; split; [exact H|apply N.eqb_refl]]. Qed.
+Proof.
+  unfold mem. rewrite existsb_exists. split.
+  - intros (y & H & E). destruct (eqb_spec x y); [now subst|discriminate].
+  - intros H. exists x. split; [exact H|apply eqb_refl].
+Qed.
 
 (* structTypeUsage : struct name -> set of used type names; the key set never changes *)
 Definition usage := name -> list name.
-Definition upd (u : usage) (a : name) (l : list name) : usage := fun x => if N.eqb x a then l else u x.
+Definition upd (u : usage) (a : name) (l : list name) : usage := fun x => if eqb x a then l else u x.
 
 (* for k, v := range usage2 { if !usage[k] { delta = true }; usage[k] = v }  --  union, reporting whether anything was new *)
 Fixpoint union (l add : list name) : list name * bool :=
@@ -20,7 +32,7 @@ Fixpoint union (l add : list name) : list name * bool :=
 
 (* the body for one ordered pair (a, b) *)
 Definition relax (u : usage) (a b : name) : usage * bool :=
-  if N.eqb a b then (u, false)
+  if eqb a b then (u, false)
   else if mem b (u a) then let '(l, d) := union (u a) (u b) in (upd u a l, d) else (u, false).
 
 Fixpoint inner (u : usage) (a : name) (bs : list name) : usage * bool :=
@@ -58,7 +70,7 @@ Section Spec.
   Proof.
     intros H. revert x. induction H as [a b Hb|a c b Hc Kc Nac Hcb IH]; intros x Kb Nab Hbx.
     - eapply cS; eauto.
-    - destruct (N.eq_dec c b) as [->|Ncb]; [eapply cS; eauto|].
+    - destruct (name_eq_dec c b) as [->|Ncb]; [eapply cS; eauto|].
       eapply cS; eauto.
   Qed.
 End Spec.
@@ -111,11 +123,11 @@ Section Correct.
 
   Lemma relax_inv u a b u' d : Inv u -> In b keys -> relax u a b = (u', d) -> Inv u'.
   Proof.
-    intros I Kb H. unfold relax in H. destruct (N.eqb_spec a b) as [->|Nab]; [now injection H as <- <-|].
+    intros I Kb H. unfold relax in H. destruct (eqb_spec a b) as [->|Nab]; [now injection H as <- <-|].
     destruct (mem b (u a)) eqn:M; [|now injection H as <- <-].
     destruct (union (u a) (u b)) as [l d'] eqn:U. injection H as <- <-.
     destruct (union_spec _ _ _ _ U) as (S1 & _). apply mem_In in M.
-    constructor; intros c; unfold upd; destruct (N.eqb_spec c a) as [->|Nca]; try apply I.
+    constructor; intros c; unfold upd; destruct (eqb_spec c a) as [->|Nca]; try apply I.
     - intros x Hx. apply S1 in Hx. destruct Hx as [Hx|Hx]; [now apply I|].
       eapply clo_trans_key; eauto; apply I; eauto.
     - intros x Hx. apply S1. left. now apply I.
@@ -126,11 +138,11 @@ Section Correct.
   Lemma relax_quiet u a b u' : relax u a b = (u', false) ->
     (forall c, u' c = u c) /\ (a <> b -> In b (u a) -> incl (u b) (u a)).
   Proof.
-    unfold relax. destruct (N.eqb_spec a b) as [->|Nab]; [intros [= <-]; split; [reflexivity|congruence]|].
+    unfold relax. destruct (eqb_spec a b) as [->|Nab]; [intros [= <-]; split; [reflexivity|congruence]|].
     destruct (mem b (u a)) eqn:M.
     - destruct (union (u a) (u b)) as [l d'] eqn:U. intros [= <- ->].
       destruct (union_spec _ _ _ _ U) as (S1 & S2 & _). specialize (S2 eq_refl). subst l. split.
-      + intros c. unfold upd. destruct (N.eqb_spec c a) as [->|]; reflexivity.
+      + intros c. unfold upd. destruct (eqb_spec c a) as [->|]; reflexivity.
       + intros _ _ x Hx. apply S1. now right.
     - intros [= <-]. split; [reflexivity|]. intros _ Hb. apply mem_In in Hb. congruence.
   Qed.
@@ -141,7 +153,7 @@ Section Correct.
     total u <= total (upd u a l) /\ (In a keys -> length (u a) < length l -> total u < total (upd u a l)).
   Proof.
     intros Hl. unfold total. induction keys as [|k ks IH]; cbn [fold_right]; [split; [lia|intros []]|].
-    destruct IH as [IH1 IH2]. unfold upd at 1 3. destruct (N.eqb_spec k a) as [->|Nk].
+    destruct IH as [IH1 IH2]. unfold upd at 1 3. destruct (eqb_spec k a) as [->|Nk].
     - split; [lia|]. intros _ Hlt. lia.
     - split; [lia|]. intros [->|Hin] Hlt; [congruence|]. specialize (IH2 Hin Hlt). lia.
   Qed.
@@ -156,7 +168,7 @@ Section Correct.
   Lemma relax_total u a b u' d : In a keys -> relax u a b = (u', d) ->
     total u <= total u' /\ (d = true -> total u < total u').
   Proof.
-    intros Ka H. unfold relax in H. destruct (N.eqb_spec a b) as [->|Nab]; [injection H as <- <-; split; [lia|discriminate]|].
+    intros Ka H. unfold relax in H. destruct (eqb_spec a b) as [->|Nab]; [injection H as <- <-; split; [lia|discriminate]|].
     destruct (mem b (u a)) eqn:M; [|injection H as <- <-; split; [lia|discriminate]].
     destruct (union (u a) (u b)) as [l d'] eqn:U. injection H as <- <-.
     destruct (union_spec _ _ _ _ U) as (_ & _ & S3 & S4). destruct (total_upd u a l S4) as [T1 T2]. split; [exact T1|].
@@ -253,5 +265,6 @@ Section Correct.
     apply IH; [exact I1|lia].
   Qed.
 End Correct.
+End Names.
 Print Assumptions iterate_exact.
 Print Assumptions iterate_terminates.
